@@ -117,6 +117,25 @@ Theorem C16_close_touches_one_slot_cgio_adf : forall w fuel ops s live c s' live
 Proof. exact io_close_touches_one_slot. Qed.
 Print Assumptions C16_close_touches_one_slot_cgio_adf.
 
+(* ---- (5) a file's slot does not depend on the slot's previous occupant ---------------------------------------------- *)
+(* ADF_file[i] also keeps attributes of the file (old_version = legacy on-disk layout, format / os_size letters, link
+   separator, pending version update).  A close leaves them in the entry.  ADFI_open_file: whatever the table and the
+   attribute memory were, the attributes of the entry it hands out are those of a reset entry updated from the header of the
+   file being opened -- nothing of the previous occupant survives *)
+Theorem C16_open_slot_fields_initialised : forall a n hdr a1 i,
+  length (amem a) = length (tab a) -> adfi_open_file a n hdr true = (a1, Some i) ->
+  attr_at a1 i = read_header hdr init_attr.
+Proof. exact open_slot_fields_initialised. Qed.
+Print Assumptions C16_open_slot_fields_initialised.
+
+(* EVERY session, BOTH variants: an entry of ADF_file[] in use that holds a valid file has exactly the attributes that
+   file's OWN header determines, whatever files (of whatever layout) were opened and closed before in the process *)
+Theorem C16_slot_fields_own : forall v w fuel ops s pend rs, run v fuel w io_init [] ops = Some (s, pend, rs) ->
+  forall j n, in_use (slot_at (io_adf s) j) <> 0 -> fname (slot_at (io_adf s) j) = Some n -> kind_of w n = KOk ->
+              attr_at (io_adf s) j = file_attr w n.
+Proof. exact slot_fields_own. Qed.
+Print Assumptions C16_slot_fields_own.
+
 (* ---- non-vacuity: eight files open at once (slot reuse, growth of all three tables, a failing and a late-failing open) *)
 Example C16b_example_cgio_adf :
   exists s live, hrun 1000 w8 io_init [] ops8 = Some (s, live) /\ length live = 8 /\ length (iol s) = 8 /\
@@ -125,6 +144,16 @@ Proof. exact io_example8. Qed.
 
 Example C16b_reissue_witness_now : mh_numbers MCur mll_init [] reissue_ops = [Some 1; Some 2; Some 3; Some 4].
 Proof. exact mll_reissue_witness_now. Qed.
+
+(* K (current layout) stays open; X (LEGACY layout) is opened into entry 1 and closed: the closed entry keeps old_version = 1;
+   Z (IEEE_BIG, current layout) is then opened into the same entry and has old_version = 0 and its own letters *)
+Example C16b_layout_example :
+  exists s1 s2 p1 p2 r1 r2,
+    run Cur 100 w4 io_init [] [OOpen 0 false; OOpen 1 false; OClose 2] = Some (s1, p1, r1) /\
+    in_use (slot_at (io_adf s1) 1) = 0 /\ a_old (attr_at (io_adf s1) 1) = true /\
+    run Cur 100 w4 io_init [] [OOpen 0 false; OOpen 1 false; OClose 2; OOpen 2 true] = Some (s2, p2, r2) /\
+    fname (slot_at (io_adf s2) 1) = Some 2 /\ attr_at (io_adf s2) 1 = layout_attr LBig /\ a_old (attr_at (io_adf s2) 1) = false.
+Proof. exact layout_example. Qed.
 
 Example C16b_example_mll :
   exists m live, mh_run MCur mll_init [] mops8 = (m, live) /\ length live = 7 /\ n_open m = 7 /\ fsize m = 16 /\
